@@ -706,6 +706,78 @@ def c_call(run, n, terms, meta):
 
 
 # --------------------------------------------------------------------------
+# C6: trees of calls through the engine (the call protocol: every argument, every result)
+# --------------------------------------------------------------------------
+def gen_tree(rng, depth, env):
+    """-> (yaql text, Python value, Gallina cexpr, [sizes of every argument and result inside])"""
+    if depth == 0 or rng.random() < 0.3:
+        name = "v%d" % len(env)
+        val = rng.choice("xyzw") * rng.randrange(25, 60)
+        env[name] = val
+        return "$" + name, val, "(CVal %s)" % gal.z(sys.getsizeof(val, 0)), []
+    op = rng.choice(["+", "+", "concat", "*", "str"])
+    if op == "+":
+        subs = [gen_tree(rng, depth - 1, env) for _ in range(2)]
+        text, val = "(%s + %s)" % (subs[0][0], subs[1][0]), subs[0][1] + subs[1][1]
+    elif op == "concat":
+        subs = [gen_tree(rng, depth - 1, env) for _ in range(rng.choice([2, 3]))]
+        text, val = "concat(%s)" % ", ".join(t[0] for t in subs), "".join(t[1] for t in subs)
+    elif op == "*":
+        k = rng.choice([1, 2, 3])
+        sub = gen_tree(rng, depth - 1, env)
+        subs = [sub, (str(k), k, "(CVal %s)" % gal.z(sys.getsizeof(k, 0)), [])]
+        text, val = "(%s * %d)" % (sub[0], k), sub[1] * k
+    else:
+        subs = [gen_tree(rng, depth - 1, env)]
+        text, val = "str(%s)" % subs[0][0], subs[0][1]
+    r = sys.getsizeof(val, 0)
+    points = [p for t in subs for p in t[3]] + [sys.getsizeof(t[1], 0) for t in subs] + [r]
+    return text, val, "(CApp (fun _ => %s) %s)" % (gal.z(r), gal.lst(t[2] for t in subs)), points
+
+
+def eval_chain(text, env, Q, how):
+    ctx = fresh_ctx()
+    for k, v in env.items():
+        ctx[k] = v
+    try:
+        statement(text, how, memoryQuota=Q, convertOutputData=False).evaluate(context=ctx)
+        return False, None
+    except exceptions.MemoryQuotaExceededException:
+        return True, None
+    except Exception as e:
+        return False, type(e).__name__
+
+
+def chain_predicate(text, Q, points, raised, other):
+    if other:
+        return "%s raised %s" % (text, other)
+    if Q > 0 and max(points) > Q and not raised:
+        return "a value of %d bytes was bound to a parameter or returned under quota %d" % (max(points), Q)
+    return None
+
+
+def c_chain(run, n, terms, meta):
+    for i in range(n):
+        env = {}
+        text, val, term, pts = gen_tree(run.rng, run.rng.choice([1, 2, 2, 3]), env)
+        fin = sys.getsizeof(val, 0)
+        points = pts + [fin, fin]                    # the argument and the result of '#finalize'
+        r = run.rng.random()
+        Q = run.rng.choice(points) + run.rng.choice([-1, 0, 0, 1]) if r < 0.85 else run.rng.choice([0, -1, 10 ** 6, 64])
+        how = how_of(i)
+        raised, other = eval_chain(text, env, Q, how)
+        run.case(("chain", text, tuple(sorted(env.items())), Q, how), nontrivial=Q > 0 and min(points) - 2 <= Q <= max(points) + 2)
+        run.count("chain:%s" % ("raise" if raised else "ok"))
+        run.count("chain-calls:%d" % text.count("("))
+        run.count("options-route:%s" % how)
+        if i % 71 == 0:
+            run.sample({"kind": "chain", "expr": text, "Q": Q, "sizes_inside": points, "raised": raised})
+        terms.append("CChain %s %s %s %s" % (gal.z(Q), gal.z(fin), term, gal.boolean(raised)))
+        meta.append(("chain", {"expr": text, "vars": env, "Q": Q, "options_route": how, "sizes_inside": points},
+                     {"raised": raised, "exception": other}, chain_predicate(text, Q, points, raised, other)))
+
+
+# --------------------------------------------------------------------------
 def load_corpus():
     path = os.path.join(VERIF, "corpus", "C08.json")
     if not os.path.exists(path):
@@ -722,6 +794,7 @@ def correspondence(run):
     c_quota(run, run.n(400, 8000), terms, meta)
     c_mul(run, run.n(800, 16000), terms, meta, corpus)
     c_call(run, run.n(400, 8000), terms, meta)
+    c_chain(run, run.n(400, 6000), terms, meta)
     # the property's predicate on every case, whatever the model says
     flagged = set()
     for i, (kind, inp, obs, pred) in enumerate(meta):
@@ -741,7 +814,8 @@ def correspondence(run):
 
 THEOREM_OF = {"limit": "C08_limit_pulls", "sized": "C08_limit_sized", "final": "C08_result_width / C08_finalize_terminates",
               "quota": "C08_quota_threshold", "mul": "C08_repetition_refuses_first / C08_repetition_never_over_quota",
-              "call": "C08_quota_threshold (argument and result checks)"}
+              "call": "C08_quota_threshold (argument and result checks)",
+              "chain": "C08_no_over_quota_value_passed_on / C08_statement_result_fits"}
 
 
 def generalise(text):
@@ -1259,6 +1333,10 @@ def replay(run, data):
             return False
         over = i["Q"] > 0 and (i["result_size"] > i["Q"] or max(i["arg_sizes"]) > i["Q"])
         return raised or not over
+    if kind == "chain":
+        i = d["input"]
+        raised, other = eval_chain(i["expr"], i["vars"], i["Q"], i.get("options_route", "copy"))
+        return chain_predicate(i["expr"], i["Q"], i["sizes_inside"], raised, other) is None
     if kind == "typed-param":
         for r in registry():
             if r["payload"] == d["payload"] and r["key"] == d["parameter"]:
